@@ -20,8 +20,8 @@ def showU : Res Unit → String := showRes (fun _ => "")
 def addrOf (pub : Bytes) : Bytes := ripemd160 (sha256 (sha256 pub))
 
 /-- property-level `VerifyAddressSignedHash` -/
-def specAddrVerify (ver : Nat) (key sig hash : Bytes) : Res Unit :=
-  match Sky.C14.recoverPubkey sig hash with
+def specAddrVerify (rec : Option Bytes) (ver : Nat) (key sig : Bytes) : Res Unit :=
+  match rec with
   | none => .err (.named "ErrInvalidSigPubKeyRecovery")
   | some p =>
     if ver ≠ 0 ∨ key ≠ addrOf p then .err (.named "ErrInvalidAddressForSig")
@@ -42,24 +42,41 @@ def reproduces (d z : Nat) (sig : Bytes) : Bool :=
       | none => false
     tryK k1 || tryK (N - k1)
 
-/-- returns (property answer, code-model answer if distinct notion exists) -/
-def answer (pending : String) (op impl : String) : String × Option String :=
+/-- driver state: pending block of the case; one-entry cache of the last public-key recovery (the
+generator asks `pubverify` and `addrverify` about the same signature and message back to back) -/
+structure St where
+  pending : String := ""
+  key : String := ""
+  rcv : Option Bytes := none
+
+def recoverCached (st : St) (s z : String) : St × Option Bytes :=
+  let k := s ++ "/" ++ z
+  if k == st.key then (st, st.rcv)
+  else
+    let r := Sky.C14.recoverPubkey ((hex? s).getD []) ((hex? z).getD [])
+    ({ st with key := k, rcv := r }, r)
+
+/-- returns (state, property answer, code-model answer if a distinct notion exists) -/
+def answer (st : St) (op impl : String) : St × String × Option String :=
+  let pending := st.pending
   let h (s : String) := (hex? s).getD []
   match op.splitOn " " with
   | ["sigvalid", s] =>
     let g := Sky.C14.parseSig (h s)
-    ((if (h s).length == 65 then (if Sky.C14.sigWellFormed g then "ok 1" else "ok 0") else "panic"),
+    (st, (if (h s).length == 65 then (if Sky.C14.sigWellFormed g then "ok 1" else "ok 0") else "panic"),
      some (showRes toString (sigValidity (h s))))
   | ["pubverify", p, s, z] =>
-    (showU (Sky.C14.verifyPubKeySignedHash (h p) (h s) (h z)), some (showU (verifyPubKeySignedHash (h p) (h s) (h z))))
+    let (st, rcv) := recoverCached st s z
+    (st, showU (Sky.C14.verifyPubKeySignedHashWith rcv (h p) (h s)), some (showU (verifyPubKeySignedHashWith rcv (h p) (h s))))
   | ["addrverify", v, k, s, z] =>
-    (showU (specAddrVerify v.toNat! (h k) (h s) (h z)), some (showU (verifyAddressSignedHash addrOf v.toNat! (h k) (h s) (h z))))
+    let (st, rcv) := recoverCached st s z
+    (st, showU (specAddrVerify rcv v.toNat! (h k) (h s)), some (showU (verifyAddressSignedHashWith rcv addrOf v.toNat! (h k) (h s))))
   | ["rawsign", d, z, k] =>
-    (match sign (ofBE (h d)) (ofBE (h z)) (ofBE (h k)) with
+    (st, match sign (ofBE (h d)) (ofBE (h z)) (ofBE (h k)) with
      | some sg => "ok " ++ hexOf (sigBytes sg) ++ " " ++ toString sg.recid
      | none => "fail", none)
   | ["signhash", d, z] =>
-    (if !secValid (h d) then "err ErrInvalidSecKey"
+    (st, if !secValid (h d) then "err ErrInvalidSecKey"
      else if (h z).all (· == 0) then "err ErrNullSignHash"
      else match impl.splitOn " " with
       | ["ok", s] =>
@@ -67,18 +84,18 @@ def answer (pending : String) (op impl : String) : String × Option String :=
         then impl else "ok <a low-s textbook signature with recid < 4>"
       | _ => "ok <signature>", none)
   | ["txn", _, orig, mutd] =>
-    (if orig == mutd then "accept" else (if impl.startsWith "reject" then impl else "reject"), none)
-  | ["reset"] => ("ok", none)
-  | ["mkblock", _] => ((if impl.startsWith "ok " then impl else "ok <block>"), none)
+    (st, if orig == mutd then "accept" else (if impl.startsWith "reject" then impl else "reject"), none)
+  | ["reset"] => (st, "ok", none)
+  | ["mkblock", _] => (st, (if impl.startsWith "ok " then impl else "ok <block>"), none)
   | ["blockexec", mutd] =>
-    (if mutd == pending then "accept" else (if impl.startsWith "reject" then impl else "reject"), none)
-  | _ => ("bad-op", none)
+    (st, if mutd == pending then "accept" else (if impl.startsWith "reject" then impl else "reject"), none)
+  | _ => (st, "bad-op", none)
 
-def step (pending : String) (op impl : String) : String × String × Verdict :=
-  let (spec, model) := answer pending op impl
-  let pending' :=
-    if op.startsWith "mkblock" then (match impl.splitOn " " with | ["ok", b] => b | _ => "")
-    else if op == "reset" then "" else pending
+def step (st : St) (op impl : String) : St × String × Verdict :=
+  let (st, spec, model) := answer st op impl
+  let pending' : St :=
+    if op.startsWith "mkblock" then { st with pending := (match impl.splitOn " " with | ["ok", b] => b | _ => "") }
+    else if op == "reset" then { st with pending := "" } else st
   if spec != normImpl impl then (pending', spec, .fail)
   else match model with
     | some m => if m == spec then (pending', spec, .hold) else (pending', "model-mismatch code-model=" ++ m ++ " spec=" ++ spec, .unknown)
@@ -86,4 +103,4 @@ def step (pending : String) (op impl : String) : String × String × Verdict :=
 
 end Sky.C10
 
-def main : IO Unit := Sky.Drv.loop (σ := String) Sky.C10.step ""
+def main : IO Unit := Sky.Drv.loop (σ := Sky.C10.St) Sky.C10.step {}
